@@ -13,7 +13,7 @@ def run_worker(item):
     st = Stats()
     out = os.path.join(sdir, "c14_%s.pkl" % tag)
     steplog = os.path.join(sdir, "c14_%s.steps" % tag)
-    env = dict(os.environ)
+    env = dict(os.environ, VERIF_TMP=sdir)      # generated files live in the scratch directory of the run, which the driver removes
     if asan:
         libasan = subprocess.check_output(["gcc", "-print-file-name=libasan.so"]).decode().strip()
         env.update(LD_PRELOAD=libasan, ASAN_OPTIONS="detect_leaks=0:abort_on_error=0:exitcode=99:allocator_may_return_null=1",
@@ -134,6 +134,63 @@ def work_builtin(item):
     return st
 
 
+def work_builtin_exact(item):
+    """the built-in collection filled to capacity-3 by AddCrystal, then files: 3 crystals (fits exactly: accepted), 1 crystal (refused, unchanged),
+    no crystal (accepted, unchanged) - AddCrystal and ReadFile must agree about the capacity"""
+    lib, src, seed = item
+    st = Stats()
+    h = xrl.Headers(src)
+    L = xrl.Lib(lib, h)
+    import c15
+    cap = h.val["CRYSTALARRAY_MAX"]
+    names0, n0, _ = c15.cstr_list(L, "Crystal_GetCrystalsList", None)
+    arr = (xrl.CrystalAtom * 1)()
+    arr[0].Zatom, arr[0].fraction = 14, 1.0
+    added = []
+    k = 0
+    while n0 + len(added) < cap - 3:
+        cs = xrl.CrystalStruct()
+        nm = ("fill_%04d" % k).encode()
+        k += 1
+        cs.name = nm
+        cs.a = cs.b = cs.c = 5.0
+        cs.alpha = cs.beta = cs.gamma = 90.0
+        cs.n_atom = 1
+        cs.atom = ctypes.cast(arr, ctypes.POINTER(xrl.CrystalAtom))
+        rv, err = L.call("Crystal_AddCrystal", ctypes.byref(cs), None)
+        if rv != 1:
+            st.violation("builtin:add-rejected-below-capacity", dict(n=n0 + len(added), capacity=cap), "1", dict(rv=rv, error=err))
+            return st
+        added.append(nm)
+    path = os.path.join(os.environ.get("VERIF_TMP") or "/var/tmp", "xrlv.c14.exact.%d.dat" % os.getpid())
+
+    def load(names):
+        with open(path, "w") as f:
+            f.write("#F exact fill\n" + "".join("#S 14 %s\n#UCELL 5 5 5 90 90 90\n#N 5\n#L Z F X Y Z\n14 1.0 0 0 0\n" % n for n in names) + "#EOF\n")
+        rv, err = L.call("Crystal_ReadFile", path.encode(), None)
+        os.unlink(path)
+        return rv, err
+    st.ev(); st.nt()
+    rv, err = load(["exactA", "exactB", "exactC"])
+    lst, n1, _ = c15.cstr_list(L, "Crystal_GetCrystalsList", None)
+    exp = sorted(names0 + added + [b"exactA", b"exactB", b"exactC"])
+    if rv != 1 or err is not None or lst != exp:
+        st.violation("builtin:exact-fill-refused", dict(capacity=cap, before=cap - 3, file_crystals=3), "accepted: the file fits exactly", dict(rv=rv, error=err, n=n1))
+        return st
+    st.ev()
+    rv, err = load(["one_too_many"])
+    lst2, n2, _ = c15.cstr_list(L, "Crystal_GetCrystalsList", None)
+    if rv != 0 or err is None or lst2 != exp:
+        st.violation("builtin:readfile-grew-past-capacity", dict(capacity=cap), "0 and error, collection unchanged", dict(rv=rv, error=err, n=n2))
+    st.ev()
+    rv, err = load([])
+    lst3, n3, _ = c15.cstr_list(L, "Crystal_GetCrystalsList", None)
+    if (rv == 0) != (err is not None) or lst3 != exp:
+        st.violation("builtin:empty-file-on-full-collection", dict(capacity=cap), "rv==0 <=> error, collection unchanged", dict(rv=rv, error=err, n=n3))
+    st.sample("builtin_exact", dict(capacity=cap, filled_by_add=len(added), filled_by_file=3), cap=1)
+    return st
+
+
 def run(ctx):
     import concurrent.futures as cf
     quick = ctx.quick
@@ -142,7 +199,8 @@ def run(ctx):
                 "ReadFile(well-formed 1..14 crystals | corrupted in 6 ways at any crystal | duplicate of an existing name | the same new name twice in one file | missing/NULL path); crystals have 0..6 atoms; "
                 "names [A-Za-z0-9_]{1,20} plus >20-character names sharing a 20-character prefix; after every step List == sorted model keys and "
                 "every entry is retrieved and compared (name, cell, atoms, stored volume == recomputed volume); %d histories x <=%d steps per worker, "
-                "8 workers on the plain library + 4 on the ASan/UBSan library; built-in collection filled to capacity in a forked child. "
+                "8 workers on the plain library + 4 on the ASan/UBSan library; built-in collection filled to capacity in a forked child (names before/between/after the built-ins, all entries re-read), and filled "
+                "to capacity-3 then loaded with a 3-crystal, a 1-crystal and an empty file in another. "
                 "non-trivial = history with a successful insertion after the array was full or with a rejected operation followed by a full "
                 "read-back; distinct by history" % (n, steps))
     with cf.ThreadPoolExecutor(2) as ex:
@@ -155,6 +213,7 @@ def run(ctx):
         for st in ex.map(run_worker, items):
             ctx.stats.merge(st)
     ctx.stats.merge(common.pmap(work_builtin, [(bp["lib"], bp["src"], ctx.seed)]))
+    ctx.stats.merge(common.pmap(work_builtin_exact, [(bp["lib"], bp["src"], ctx.seed)]))
     ctx.assumptions = ["leak freedom of Crystal_ArrayFree is decided by C04 (LeakSanitizer histories); here ASan/UBSan watch for corruption",
                        "file names are limited to 20 characters by the documented '#S <num> <name>' format (%20s)"]
 
@@ -166,6 +225,8 @@ def replay(ctx, rec):
     bad = [v for v in st.violations if v["sig"] == rec["signature"]]
     st2 = common.pmap(work_builtin, [(b["lib"], b["src"], 1)])
     bad += [v for v in st2.violations if v["sig"] == rec["signature"]]
+    st3 = common.pmap(work_builtin_exact, [(b["lib"], b["src"], 1)])
+    bad += [v for v in st3.violations if v["sig"] == rec["signature"]]
     for v in bad[:2]:
         print("replay:", v["sig"], v["case"])
     return not bad
